@@ -6,6 +6,7 @@ import (
 	"io"
 	"net/http"
 	"os"
+	"regexp"
 	"sort"
 	"strings"
 	"time"
@@ -339,7 +340,9 @@ func c40check(r *simkit.Run, n *Net, vss []*VS, b *c40blob, after string) {
 		}
 		if view != first {
 			key := after
-			if after == "delete" && b.failedDelete {
+			if stripLM(view) == stripLM(first) && r.Res.Faults["replica-req-drop"]+r.Res.Faults["replica-resp-lost"] > 0 {
+				key = "last-modified-differs-after-a-retried-upload"
+			} else if after == "delete" && b.failedDelete {
 				key = "delete-retried-after-a-failed-delete"
 			} else if r.Res.Faults["replica-req-drop"]+r.Res.Faults["replica-resp-lost"]+r.Res.Faults["replica-delay"] > 0 {
 				key += ":with-replica-faults"
@@ -359,3 +362,8 @@ func minI(a, b int) int {
 	}
 	return b
 }
+
+var lmRe = regexp.MustCompile(`(Last-Modified=[^;\]]*|lm=\d+)`)
+
+// stripLM removes the last-modified fields from a replica view.
+func stripLM(v string) string { return lmRe.ReplaceAllString(v, "") }
